@@ -52,6 +52,8 @@ def check_case(rule_name, attrs):
     ff, cc = res[0], res[1]
     if len(res) > 2 and res[2][1]:
         raise Violation("collecting-depends-on-prior-list-content", "into a list that already holds an earlier error: " + res[2][1], case)
+    if len(res) > 3 and res[3][1]:
+        raise Violation("verdict-depends-on-prefix-extras-or-tail", res[3][1], case)
     if ff[0] == "EXC":
         raise Violation("failfast-foreign-exception", f"fail-fast raised {ff[1]}", case)
     if cc[0] == "EXC":
@@ -149,6 +151,11 @@ def assignments(rule_name):
             if foreign:
                 attrs[foreign] = "1"
             yield attrs
+    # foreign attributes written with a namespace prefix (the prefix is bound on the node in the dressed-up run)
+    for foreign in ("stmml:unitType", "x:note", "xml:lang", "xsi:type"):
+        attrs = {a: (s_[1] if len(s_) > 1 else "v") for a, s_ in spec.items() if s_[0]}
+        attrs[foreign] = "1"
+        yield attrs
     base = {a: (s[1] if len(s) > 1 else "v") for a, s in spec.items() if s[0]}
     for foreign in elsewhere:
         attrs = dict(base)
